@@ -306,7 +306,7 @@ fn key_uniformity(env: &Env, desc: &Descriptor<DefiniteDescriptorKey>, key_ids: 
 
 fn hashes_of(env: &Env, text: &str) -> Vec<usize> { env.uni.hashes.iter().filter(|h| text.contains(&h.hex)).map(|h| h.id).collect() }
 
-pub fn check_reference(w: &mut World, actor: &str, psbt: &Psbt, i: usize, produced: &[Produced], ok: [bool; 4]) {
+pub fn check_reference(w: &mut World, actor: &str, psbt: &Psbt, i: usize, produced: &[Produced], ok: [bool; 6]) {
     let env = w.env.clone();
     let desc = env.inputs[i].desc.clone();
     let sat = WorldSat::from_psbt(&env.uni, &env.by_expr, psbt, i);
@@ -362,6 +362,8 @@ pub fn check_reference(w: &mut World, actor: &str, psbt: &Psbt, i: usize, produc
                 raise_class(w, "C02", "L2-mall", format!("L2-mall:{:?}:get_satisfaction_mall", kind), format!("a witness from the caller's assets exists (R3, accepted by R1) but get_satisfaction_mall failed: {}", text), actor);
             } else if !ok[3] {
                 raise_class(w, "C02", "L2-mall", format!("L2-mall:{:?}:into_plan_mall", kind), format!("a witness from the caller's assets exists (R3, accepted by R1) but into_plan_mall/satisfy failed: {}", text), actor);
+            } else if !ok[5] {
+                raise_class(w, "C02", "L2-mall", format!("L2-mall:{:?}:psbt_satisfier", kind), format!("a witness from the signatures, preimages and locks in the PSBT exists (R3, accepted by R1) but get_satisfaction_mall over PsbtInputSatisfier failed (nLockTime={} nSequence={:#x}): {}", sat.lock_time, sat.sequence, text), actor);
             }
             let all_pre = hashes_of(&env, &text).iter().all(|h| sat.preimages.contains(h));
             if sane && all_pre {
@@ -370,6 +372,8 @@ pub fn check_reference(w: &mut World, actor: &str, psbt: &Psbt, i: usize, produc
                     raise_class(w, "C02", "L2-nonmall", format!("L2-nonmall:{:?}:get_satisfaction", kind), format!("sane descriptor, all preimages known, a witness exists (R3, accepted by R1) but get_satisfaction failed: {}", text), actor);
                 } else if !ok[2] {
                     raise_class(w, "C02", "L2-nonmall", format!("L2-nonmall:{:?}:into_plan", kind), format!("sane descriptor, all preimages known, a witness exists but into_plan/satisfy failed: {}", text), actor);
+                } else if !ok[4] {
+                    raise_class(w, "C02", "L2-nonmall", format!("L2-nonmall:{:?}:psbt_satisfier", kind), format!("sane descriptor, all preimages known, a witness exists but get_satisfaction over PsbtInputSatisfier failed (nLockTime={} nSequence={:#x}): {}", sat.lock_time, sat.sequence, text), actor);
                 }
             }
         }
